@@ -74,7 +74,14 @@ def coq_case_sp(case, obs):
              L(N(max(1, c.get("pubevery", 1))) for c in case["comps"]), Z(case["end"]), N(fuel_for(case, obs)))
 
 
+def push_as_pull(case):
+    """the composition with every push-based component (kind R) replaced by a pull-based one: same scheduling"""
+    return dict(case, comps=[dict(c, kind="P") if c["kind"] == "R" else c for c in case["comps"]])
+
+
 def coq_case_c01(case, obs):
+    if any(c["kind"] == "R" for c in case["comps"]):
+        return C("CPush", coq_case(push_as_pull(case), obs))
     return C("CSparse", coq_case_sp(case, obs)) if is_sparse(case) else C("CDense", coq_case(case, obs))
 
 
@@ -83,7 +90,10 @@ OUTCOMES = {"ok": "OOk", "CircularCoupling": "OCirc", "TimeError": "OTime", "NoD
 
 def coq_obs(case, obs):
     evs = []
+    push = any(c["kind"] == "R" for c in case.get("comps", []))
     for e in obs["events"]:
+        if push and e[0] != "U":
+            continue      # compositions with push-based components are compared by their update sequence (CPush)
         if e[0] == "U":
             evs.append(C("EU", N(e[1]), Z(e[2])))
         else:
